@@ -96,6 +96,44 @@ def close_check(tree, ob):
     ok, wit = fv.cfg.must_pass(fv.cfg.entry, fv.cfg.exit, {fv.node(c) for c in closes}, include_exc=False)
     # there must be a path that closes when both hold: the close is reachable
     ob.require(any(fv.node(c) in fv.cfg.reachable([fv.cfg.entry]) for c in closes), 'close unreachable')
+    # "terminating" for the purpose of closing means SESS_TERM sent AND received: an endpoint that only sent its own and
+    # is idle for a moment must not close under a transfer the peer started before it saw the request
+    recv_flags = set()
+    for (rel, qual, func) in tree.all_functions([SESS]):
+        if qual.endswith('.recv_sess_term'):
+            for n in walk_local(func):
+                if isinstance(n, ast.Assign) and isinstance(n.value, ast.Constant) and n.value.value is True:
+                    for t in n.targets:
+                        if isinstance(t, ast.Attribute) and dotted(t.value) == 'self':
+                            recv_flags.add('self.' + t.attr)
+    for call in closes:
+        facts = fv.facts(call) or frozenset()
+        got = [t for (t, p) in facts if p is True and t in recv_flags]
+        if got:
+            # the flag is set to True only where the SESS_TERM of the peer is handled
+            wrong = []
+            for (rel, qual, func) in tree.all_functions([SESS]):
+                for n in walk_local(func):
+                    if isinstance(n, ast.Assign) and isinstance(n.value, ast.Constant) and n.value.value is True and \
+                            any('self.' + getattr(t, 'attr', '') == got[0] and dotted(getattr(t, 'value', None)) == 'self' for t in n.targets) and not qual.endswith('.recv_sess_term'):
+                        wrong.append((qual, n))
+            if wrong:
+                ob.violate(SESS, wrong[0][0], src(wrong[0][1]), 'the "SESS_TERM received" flag is set without a SESS_TERM having been received', wrong[0][1])
+            else:
+                ob.site(SESS, call, 'close requires {} (set only in recv_sess_term)'.format(got[0]))
+        else:
+            ob.violate(SESS, fv.qual, src(call) + ' without "SESS_TERM of the peer received"', 'the endpoint closes as soon as its own SESS_TERM is out and it is idle for a moment, without waiting for the SESS_TERM of '
+                       'the peer: a transfer the peer started before it saw the request is cut off and never reported', call)
+    # the TX conjuncts of the idle predicate become true in the connection layer, outside every handler: the close check
+    # must be re-run from there (else a close deferred by unsent octets never happens, and a responder never closes by itself)
+    fp = FuncView(tree, SESS, 'Connection._tx_proxy')
+    hooks = [c for c in calls_in(fp.func) if isinstance(c.func, ast.Attribute) and dotted(c.func.value) == 'self' and
+             any(m and method_calls(m[2], '_check_sess_term', 'self') for m in [tree.find_method(SESS, 'ContactHandler', c.func.attr)])]
+    if hooks:
+        ob.site(SESS, hooks[0], '_tx_proxy: {}() re-runs the close check when the last octets were written'.format(hooks[0].func.attr))
+    else:
+        ob.violate(SESS, fp.qual, 'no close check when the TX buffers drain', 'nothing re-evaluates the close condition when the last queued octets have been written: a close that was put off because of '
+                   'them never happens', fp.func)
 
 
 def c09b(tree, ob):
@@ -157,6 +195,9 @@ def c09c(tree, ob):
 def _flush_rule(tree, ob, qual):
     fv = FuncView(tree, SESS, qual)
     loops = [n for n in walk_local(fv.func) if isinstance(n, (ast.While, ast.For))]
+    if len(loops) > 1:
+        # several loops (close() also reports the transfers in progress): the flush is the one over the not-started queue
+        loops = [n for n in loops if '_tx_pend_start' in src(n.test if isinstance(n, ast.While) else n.iter)]
     loop = one(loops, 'flush loop in ' + qual, ob)
     if isinstance(loop, ast.While):
         if src(loop.test) not in ('self._tx_pend_start', 'len(self._tx_pend_start) > 0', 'len(self._tx_pend_start)'):
